@@ -495,7 +495,8 @@ def standard_check(prop, tier, seed, mod):
     coqchk_note = None
     if proof_ok and tier == "thorough" and not os.environ.get("VERIF_NO_COQCHK"):
         with Lock("coqchk"):
-            rc, o = sh("coqchk -silent -o -Q theories Osmo Osmo.Properties.%s" % prop, cwd=COQ, timeout=3000)
+            admit = "".join(" -admit %s" % a for a in getattr(mod, "COQCHK_ADMIT", []))
+            rc, o = sh("coqchk -silent -o%s -Q theories Osmo Osmo.Properties.%s" % (admit, prop), cwd=COQ, timeout=3000)
         m = re.search(r"\* Axioms:(.*?)\* Constants/Inductives relying on type-in-type:(.*?)\* Constants/Inductives relying on unsafe \(co\)fixpoints:(.*?)\* Inductives whose positivity is assumed:(.*)", o, flags=re.S)
         if rc != 0 or not m:
             proof_ok = False
@@ -505,6 +506,8 @@ def standard_check(prop, tier, seed, mod):
             ax = " ".join(m.group(1).split())
             bad = [" ".join(g.split()) for g in (m.group(2), m.group(3), m.group(4))]
             coqchk_note = "coqchk -o: axioms of all loaded libraries: %s; type-in-type: %s; unsafe fixpoints: %s; assumed positivity: %s" % (ax, bad[0], bad[1], bad[2])
+            if admit:
+                coqchk_note += "; installed library modules taken as already checked (coqchk%s): re-checking them without the VM takes hours" % admit
             if any(b != "<none>" for b in bad):
                 proof_ok = False
                 theorem_fail = "coqchk reports disabled kernel checks: " + coqchk_note
